@@ -29,19 +29,21 @@ def write_if_changed(path, text):
 
 
 def regenerate(repo, outdir, only=None):
-    """Regenerates every part (the generated files must all be current for the build); returns the obligations and
-    problems of the parts in `only` (None = all): a property depends on the parts it names in TRANSLATOR_PARTS."""
+    """Regenerates the parts in `only` (None = all) and returns their obligations and problems. A property depends on
+    the parts it names in TRANSLATOR_PARTS; the other generated files are left as they are on disk (they only feed
+    driver operations that this property's suites do not use)."""
     obligations, problems = [], []
     here = os.path.dirname(os.path.abspath(__file__))
     for part in PARTS:
         if not os.path.exists(os.path.join(here, part + ".py")):
+            continue
+        if only is not None and part not in only:
             continue
         mod = importlib.import_module("translate." + part)
         try:
             o, p = mod.generate(repo, outdir)
         except Exception as e:  # noqa: BLE001 - a crashing part is a problem of that part only
             o, p = [], [{"name": "translate." + part, "detail": "%s: %s" % (type(e).__name__, e)}]
-        if only is None or part in only:
-            obligations += o
-            problems += p
+        obligations += o
+        problems += p
     return obligations, problems
